@@ -51,6 +51,9 @@ func runC01(c *Ctx) {
 	ruleKeyBytes(c)
 	ruleUpdate(c)
 	ruleSnapshot(c)
+	if a != nil {
+		rulePreAuthRaceFree(c, a) // "all concurrent lookups and key-list replacements": the lookups see a consistent list
+	}
 }
 
 // C01.UPDATE: every implementation of CipherList.Update stores its parameter into the list field and does not mutate the old list in place.
@@ -106,6 +109,32 @@ func runC06(c *Ctx) {
 	ruleKeyBytes(c) // FIXEDREAD part
 	ruleGates(c, a, "GATE7")
 	ruleGates(c, a, "GATE8")
+	rulePreAuthRaceFree(c, a)
+}
+
+// C06.RACEFREE: the shared components the authentication code touches (key list, key entries, replay history) obey their lock
+// discipline. A race there corrupts the snapshot a probe is searched against (a nil slot, a torn list); the resulting panic is
+// caught by the per-connection recover frame, whose deferred Close ends the connection at once — an immediate, content-
+// dependent close instead of silent absorption until the timeout.
+func rulePreAuthRaceFree(c *Ctx, a *tcpAnchors) {
+	touched := map[string]bool{}
+	for _, au := range a.auths {
+		reg := c.NewRegion(au, 4, func(h *ssa.Function) bool { return eng.PkgPathOf(h) != eng.Mod+"/service" })
+		reg.Instrs(func(_ *ssa.Function, ins ssa.Instruction) {
+			if fa, ok := ins.(*ssa.FieldAddr); ok {
+				if t, _, _, ok := eng.FieldOf(fa); ok {
+					touched[t] = true
+				}
+			}
+		})
+	}
+	var ts []string
+	for _, T := range allSharedTypes(c) {
+		if touched[T] {
+			ts = append(ts, T)
+		}
+	}
+	ruleGuardedTypes(c, "RACEFREE", ts, 3, 6)
 }
 
 // C06.DRAIN: address-read failure and relay copy error drain before closing.
